@@ -452,4 +452,153 @@ theorem micro_enabled {s : State} (h : Reach s) {th : Th} {op : MOp} {rest : Lis
     · rfl
   all_goals (refine ⟨0, 0, ?_⟩; simp only [microStep]; (try split) <;> (try split) <;> (try split) <;> rfl)
 
+
+/-- a thread waiting in `wait pid`: the pending object exists, has waiting receivers, and is either completed or
+still registered (so that a reply will complete it) -/
+structure WaitOk (cs : CtxSt) (pid : ReqId) : Prop where
+  ex : cs.pobj pid ≠ none
+  live : ∀ po, cs.pobj pid = some po → po.rcvs ≠ [] ∧ (po.done ≠ none ∨ cs.byKey po.key = some pid)
+
+def WaitInv (s : State) : Prop := ∀ th pid, .wait pid ∈ s.prog th → WaitOk (s.ctx th.ctx) pid
+
+theorem ins_ne_nil (l : List Nat) (x : Nat) : ins l x ≠ [] := by
+  unfold ins; split
+  · rename_i h; intro e; rw [e] at h; simp at h
+  · simp
+
+theorem handleReplyStep_waitOk {cs cs' : CtxSt} {id : ReqId} {ok : Bool} {more : List MOp} {o : Out} {pid : ReqId}
+    (hp : PendOk cs) (hw : WaitOk cs pid) (hs : handleReplyStep cs id ok = some (cs', more, o)) : WaitOk cs' pid := by
+  obtain ⟨w1, w2⟩ := hw
+  have a1 := hp.byId_some
+  have a2 := hp.byId_key
+  have a3 := hp.byId_inj
+  have a4 := hp.fresh
+  have a5 := hp.byKey_some
+  have a6 := hp.byKey_obj
+  unfold handleReplyStep at hs
+  split at hs
+  · simp only [Option.some.injEq, Prod.mk.injEq] at hs; obtain ⟨rfl, rfl, rfl⟩ := hs; exact ⟨w1, w2⟩
+  · split at hs
+    · simp only [Option.some.injEq, Prod.mk.injEq] at hs; obtain ⟨rfl, rfl, rfl⟩ := hs; exact ⟨w1, w2⟩
+    · split at hs
+      · simp only [Option.some.injEq, Prod.mk.injEq] at hs
+        obtain ⟨rfl, -, -⟩ := hs
+        constructor <;> (try intros) <;> simp only [upd] at * <;> grind
+      · split at hs
+        · simp only [Option.some.injEq, Prod.mk.injEq] at hs
+          obtain ⟨rfl, -, -⟩ := hs
+          constructor <;> (try intros) <;> simp only [upd] at * <;> grind
+        · simp only [Option.some.injEq, Prod.mk.injEq] at hs
+          obtain ⟨rfl, -, -⟩ := hs
+          constructor <;> (try intros) <;> simp only [upd] at * <;> grind
+
+theorem WaitOk.cancel {cs : CtxSt} {pid : ReqId} (h : WaitOk cs pid) (l : Key → List Rcv) (g : ReqId → PObj → Bool) :
+    WaitOk { cs with lsubs := l, pobj := fun p => (cs.pobj p).map (fun po => po.cancelIf (g p po)) } pid := by
+  obtain ⟨w1, w2⟩ := h
+  constructor
+  · simp only
+    cases hp : cs.pobj pid <;> simp_all
+  · intro po hpo
+    simp only at hpo
+    cases hp : cs.pobj pid with
+    | none => simp [hp] at hpo
+    | some po0 =>
+      simp only [hp, Option.map_some, Option.some.injEq] at hpo
+      subst hpo
+      simpa using w2 po0 hp
+
+set_option maxHeartbeats 2000000 in
+theorem waitOk_micro {s s' : State} {th : Th} {ch ch2 : Nat} {op : MOp} {rest : List MOp} {o : Out} {pid : ReqId}
+    (hp : PendOk (s.ctx th.ctx)) (hw : WaitOk (s.ctx th.ctx) pid)
+    (hs : microStep s th ch ch2 op rest = some (s', o)) : WaitOk (s'.ctx th.ctx) pid := by
+  have hw' := hw
+  obtain ⟨w1, w2⟩ := hw
+  have a1 := hp.byId_some
+  have a2 := hp.byId_key
+  have a4 := hp.fresh
+  have a5 := hp.byKey_some
+  have a6 := hp.byKey_obj
+  have m1 := ins_ne_nil
+  cases op <;> simp only [microStep] at hs
+  all_goals (try (split at hs))
+  all_goals (try (split at hs))
+  all_goals (try (split at hs))
+  all_goals (try (split at hs))
+  all_goals (try (simp at hs))
+  all_goals (try (obtain ⟨rfl, -⟩ := hs))
+  all_goals (simp only [setProg_ctx, setCtx_ctx, State.setProg, if_true])
+  all_goals (try exact hw')
+  all_goals (try exact handleReplyStep_waitOk hp hw' ‹handleReplyStep _ _ _ = some _›)
+  all_goals (try exact hw'.cancel _ _)
+  all_goals (try (constructor <;> (try intros) <;> simp only [upd, peerRemovedStep] at * <;> grind))
+
+
+set_option maxHeartbeats 2000000 in
+/-- a `wait` in the new program of the acting thread was in the rest of its old program, or was just created by
+`_subscribe_remote` for a pending object that is registered -/
+theorem microStep_wait_new {s s' : State} {th : Th} {ch ch2 : Nat} {op : MOp} {rest : List MOp} {o : Out}
+    (hp : PendOk (s.ctx th.ctx)) (hs : microStep s th ch ch2 op rest = some (s', o)) :
+    ∀ pid, .wait pid ∈ s'.prog th → .wait pid ∈ rest ∨ WaitOk (s'.ctx th.ctx) pid := by
+  have a5 := hp.byKey_some
+  have a6 := hp.byKey_obj
+  have m1 := ins_ne_nil
+  have f1 : ∀ m pid, MOp.wait pid ∉ onSendFail m := by intro m pid; cases m <;> simp [onSendFail]
+  cases op <;> simp only [microStep] at hs
+  all_goals (try (split at hs))
+  all_goals (try (split at hs))
+  all_goals (try (split at hs))
+  all_goals (try (split at hs))
+  all_goals (try (simp at hs))
+  all_goals (try (obtain ⟨rfl, -⟩ := hs))
+  all_goals (intro pid hm)
+  all_goals (simp only [setProg_prog, if_true, State.setProg, upd] at hm)
+  all_goals (try (have f2 := handleReplyStep_cars ‹handleReplyStep _ _ _ = some _›))
+  all_goals (try (split at hm))
+  all_goals (try (simp only [List.mem_append, List.mem_cons, List.mem_map, List.not_mem_nil, or_false, false_or, reduceCtorEq] at hm))
+  all_goals (try (left; exact hm))
+  all_goals (try (exact absurd hm (f1 _ _)))
+  all_goals (try (rcases hm with hm | hm <;> first | (left; exact hm) | exact absurd hm (f1 _ _) | (have := f2 _ hm; simp [MOp.isCar] at this) | (obtain ⟨_, -, hm⟩ := hm; cases hm)))
+  all_goals (try (rcases hm with hm | hm
+                  · right
+                    simp only [MOp.wait.injEq] at hm
+                    subst hm
+                    simp only [setProg_ctx, setCtx_ctx, if_true]
+                    constructor <;> (try intros) <;> simp only [upd] at * <;> grind
+                  · left; exact hm))
+
+theorem waitInv_reach {s : State} (h : Reach s) : WaitInv s := by
+  induction h with
+  | init => intro th pid hm; simp [State.init] at hm
+  | step hr hs ih =>
+    rename_i s0 s1 a o
+    intro th' pid hm
+    by_cases ha : ∃ th ch ch2, a = .micro th ch ch2
+    · obtain ⟨th, ch, ch2, rfl⟩ := ha
+      obtain ⟨-, op, rest, hp, hmic⟩ := step_micro_inv hs
+      have hf := microStep_frame hmic
+      have hpk := pendInv_reach hr th.ctx
+      by_cases e : th' = th
+      · subst e
+        rcases microStep_wait_new hpk hmic pid hm with h1 | h1
+        · exact waitOk_micro hpk (ih th' pid (by rw [hp]; exact List.mem_cons_of_mem _ h1)) hmic
+        · exact h1
+      · rw [hf.prog_other th' e] at hm
+        have := ih th' pid hm
+        by_cases hc : th'.ctx = th.ctx
+        · rw [hc] at this ⊢; exact waitOk_micro hpk this hmic
+        · rw [hf.ctx_other _ hc]; exact this
+    · have ha' : ∀ th ch ch2, a ≠ .micro th ch ch2 := fun th ch ch2 e => ha ⟨th, ch, ch2, e⟩
+      have hold : MOp.wait pid ∈ s0.prog th' := by
+        refine nonmicro_prog_ind (fun l => MOp.wait pid ∈ l → MOp.wait pid ∈ s0.prog th') (by simp) ?_ ?_ (by simp) (by simp) ?_ (by simp)
+          ha' hs th' (fun x => x) hm
+        · intro c t n op; cases op <;> simp only [beginProg] <;> (try split) <;> simp
+        · intro m; cases m <;> simp [onSendFail]
+        · intro src m
+          cases m with
+          | subReq id ob sg b => cases b <;> simp [dispatch]
+          | _ => simp [dispatch]
+      have := ih th' pid hold
+      have e := step_nonmicro_tables ha' hs th'.ctx
+      exact ⟨by rw [e.pobj]; exact this.ex, by rw [e.pobj, e.byKey]; exact this.live⟩
+
 end QmiModel.PubSub
